@@ -199,6 +199,7 @@ func c02Gen(c *Ctx) {
 	c02ArgPath(c)
 	parseWidth(c)
 	ptrToPtrKeepsNull(c)
+	decoderUsesNumber(c)
 }
 
 // errorFlow classifies what happens to the error result of call in fn:
